@@ -339,7 +339,7 @@ def big_case(draw):
 
 def _run_hyp(arg):
     seed_value, n = arg
-    acc = Acc()
+    acc = runner.track(Acc())
 
     def body(case):
         sub = _run_chunk([case])
